@@ -70,6 +70,7 @@ fn int_values(rng: &mut Rng, n: usize) -> Vec<i128> {
 }
 
 fn ints(ctx: &mut Ctx, n: usize) {
+    ctx.align();
     let mut rng = ctx.rng.clone();
     for v in int_values(&mut rng, n) {
         if !ctx.mine() {
@@ -126,9 +127,12 @@ fn float_bits(rng: &mut Rng, n: usize) -> Vec<u64> {
 }
 
 fn floats(ctx: &mut Ctx, n: usize) {
+    ctx.align();
     let mut rng = ctx.rng.clone();
-    for bits in float_bits(&mut rng, n) {
-        if !ctx.mine() {
+    // the boundary values are partitioned across shards; the random tail is this shard's own
+    let pool_len = crate::pools::floats().into_iter().filter(|f| f.is_finite()).count();
+    for (i, bits) in float_bits(&mut rng, n / 16 + 1).into_iter().enumerate() {
+        if i < pool_len && !ctx.mine() {
             continue;
         }
         let f = f64::from_bits(bits);
@@ -187,6 +191,7 @@ fn place_point(digits: &str, scale: u32) -> String {
 }
 
 fn decimals(ctx: &mut Ctx, n: usize) {
+    ctx.align();
     let mut rng = ctx.rng.clone();
     let max_m: u128 = (1u128 << 96) - 1;
     let mut cases: Vec<(u128, u32, bool)> = vec![(0, 0, false), (0, 5, false), (1, 0, false), (1, 28, false), (max_m, 0, false), (max_m, 28, true), (max_m, 14, false), (max_m - 1, 0, true), (5, 1, true), (150, 2, false), (10, 1, false), (100, 2, true)];
@@ -213,9 +218,18 @@ fn decimals(ctx: &mut Ctx, n: usize) {
         }
         check_literal(ctx, &format!("d{sign}000{body}"), &want, "decimal-leading-zeros");
         // digits beyond the 28th fractional place: a parse error, or within one unit in the last kept place
+        let mut tails: Vec<String> = vec![];
         if scale == 28 {
             let extra = 1 + rng.below(8);
-            let tail: String = (0..extra).map(|_| char::from(b'0' + rng.below(10) as u8)).collect();
+            tails.push((0..extra).map(|_| char::from(b'0' + rng.below(10) as u8)).collect());
+            if m == max_m {
+                // the corner where rounding up does not fit the mantissa, on every run
+                tails.push("9".into());
+                tails.push("50000001".into());
+                tails.push("4".into());
+            }
+        }
+        for tail in tails {
             let text = format!("d{sign}{body}{tail}");
             ctx.count();
             ctx.hit("family:decimal-beyond-scale-28");
@@ -225,7 +239,10 @@ fn decimals(ctx: &mut Ctx, n: usize) {
                     let unit = Decimal::from_i128_with_scale(1, 28);
                     let diff = (g - d).abs();
                     if g.scale() > 28 || diff > unit {
-                        ctx.violation("C08 decimal-beyond-scale-28", format!("rounded to {g}, more than one unit in the last place away from {d}"), json!({"text": text}));
+                        // one corner has its own signature: rounding up at the 28th digit would need a 97-bit
+                        // mantissa, and the literal is then rounded at the 27th digit instead
+                        let sig = if m == max_m && g.scale() == 27 { "C08 decimal-beyond-scale-28 rounding-carries-past-the-96-bit-mantissa" } else { "C08 decimal-beyond-scale-28" };
+                        ctx.violation(sig, format!("rounded to {g}, more than one unit in the 28th place away from {d}"), json!({"text": text}));
                     }
                 }
                 Ok(Err(_)) => ctx.hit("decimal-beyond-scale-28:rejected"),
@@ -256,6 +273,7 @@ fn esc_for(c: char) -> Option<&'static str> {
 }
 
 fn strings(ctx: &mut Ctx, astral_samples: usize) {
+    ctx.align();
     let mut rng = ctx.rng.clone();
     // every scalar of the BMP raw (16 per literal), except the two that must be escaped
     let mut chunk = String::new();
@@ -280,17 +298,16 @@ fn strings(ctx: &mut Ctx, astral_samples: usize) {
         }
     }
     flush(ctx, &mut chunk);
-    for _ in 0..astral_samples {
+    for _ in 0..astral_samples / 16 + 1 {
+        // this shard's own random sample (no partitioning: the streams differ per shard)
         let cp = 0x10000 + rng.below(0x100000) as u32;
         let Some(c) = char::from_u32(cp) else { continue };
-        if !ctx.mine() {
-            continue;
-        }
         check_literal(ctx, &format!("\"a{c}b\""), &Want::Val(Value::String(format!("a{c}b"))), "string-raw-astral");
         check_literal(ctx, &format!("\"\\u{{{cp:x}}}\""), &Want::Val(Value::String(c.to_string())), "string-unicode-escape");
         check_literal(ctx, &format!("\"\\u{{{cp:06X}}}\""), &Want::Val(Value::String(c.to_string())), "string-unicode-escape");
     }
     // escapable characters: via their escape, raw where legal, and via \u{..} in all hex lengths
+    ctx.align();
     for c in ['\n', '\r', '\t', '\\', '\'', '"', 'A', '\0', 'é', '\u{2028}', '\u{ffff}', '\u{10ffff}', '\u{d7ff}', '\u{e000}'] {
         if !ctx.mine() {
             continue;
@@ -405,6 +422,7 @@ fn words(ctx: &mut Ctx) {
     }
     ws.sort();
     ws.dedup();
+    ctx.align();
     for w in ws {
         for ctxt in ["{}", "{}(a)", "a.{}", "{{{}: a}}", ":{}", "{} + i1", "[{}, a]", "a contains {}", "-{}", "{}.b"] {
             if !ctx.mine() {
